@@ -1004,7 +1004,11 @@ def rule_R11(ed, src, parts, ordinal, name, ghost=None, plain=False):
     head += ("let mut %s = %s;\n" % (name, expr)) if plain else ("let mut %s = IntoIterator::into_iter(%s);\n" % (name, expr))
     if ghost:
         # (annotation only) a ghost name for what the iterator will yield, for the loop invariant
-        head += "let ghost %s = %s.remaining();\n" % (ghost, name)
+        # (`NAME=EXPR`: the ghost expression spelled out, e.g. `items=it1.0.remaining()` for a wrapper)
+        if "=" in ghost:
+            head += "let ghost %s = %s;\n" % tuple(ghost.split("=", 1))
+        else:
+            head += "let ghost %s = %s.remaining();\n" % (ghost, name)
     head += "loop"
     ed.replace(toks[k].start, toks[e_hi].end, head, "R11", "for-loop desugared (Rust reference); iterator named `%s`%s" % (name, (", enumerate counter `%s` made explicit (R5)" % counter) if counter else ""))
     ed.insert(toks[j].end, " match %s.next() { Some(%s) => {" % (name, pat), "R11", "for-loop desugared")
